@@ -442,9 +442,11 @@ fn data_messages(st: &mut Stats, thorough: bool) {
           both(st, &name, &move |e| MessageBuilder::new().ts_msg(e, Some(Timestamp::from_ticks(9))).data_msg(&cc2, rid, wg(), e, None).add_header_and_build(wg().prefix));
           // DATAFRAG: only where the writer fragments (sample larger than the fragment size); never for key-hash disposes
           if kind < 2 && !explicit_reader {
-            for fs in [4u16, 5, 8, 1024] {
-              let total = cc.data_value.payload_size();
-              if total <= fs as usize {
+            let total = cc.data_value.payload_size();
+            // (a fragment size equal to the sample size - the whole sample in one DATAFRAG - is the largest the
+            // format allows and the builder can produce it, even though the Writer fragments only above it)
+            for fs in [4u16, 5, 8, 1024, total.min(60_000) as u16] {
+              if total < fs as usize || fs == 0 {
                 continue;
               }
               let nf = total.div_ceil(fs as usize);
